@@ -1,4 +1,53 @@
 package main
 
-// setupProcess prepares process-level monitors (C17: stdout/stderr capture).
-func setupProcess(prop string) {}
+import (
+	"io"
+	"os"
+	"syscall"
+)
+
+// diag is where the harness writes its own diagnostics (the original standard error).
+var diag io.Writer = os.Stderr
+
+// resultOut is where replay results are printed (the original standard output).
+var resultOut io.Writer = os.Stdout
+
+// setupProcess prepares process-level monitors. For C17 file descriptors 1 and 2 are redirected
+// to files this worker owns, so that any byte the library writes to the process's standard output
+// or standard error is seen (seam S6); the original stderr is kept for harness diagnostics.
+func setupProcess(prop string, logPath string) {
+	if prop != "C17" {
+		return
+	}
+	base := logPath
+	if base == "" {
+		f, err := os.CreateTemp("", "godsim-c17-")
+		if err != nil {
+			return
+		}
+		base = f.Name()
+		f.Close()
+		defer os.Remove(base)
+	}
+	if fd, err := syscall.Dup(2); err == nil {
+		diag = os.NewFile(uintptr(fd), "orig-stderr")
+	}
+	if fd, err := syscall.Dup(1); err == nil {
+		resultOut = os.NewFile(uintptr(fd), "orig-stdout")
+	}
+	var err error
+	capOut, err = os.OpenFile(base+".fd1", os.O_CREATE|os.O_RDWR|os.O_TRUNC, 0o644)
+	if err != nil {
+		return
+	}
+	capErr, err = os.OpenFile(base+".fd2", os.O_CREATE|os.O_RDWR|os.O_TRUNC, 0o644)
+	if err != nil {
+		return
+	}
+	syscall.Dup2(int(capOut.Fd()), 1)
+	syscall.Dup2(int(capErr.Fd()), 2)
+	if logPath == "" {
+		os.Remove(base + ".fd1")
+		os.Remove(base + ".fd2")
+	}
+}
